@@ -119,6 +119,8 @@ func main() {
 		os.Exit(runSelftest(*verif))
 	case "mutants":
 		os.Exit(runMutantsCmd(pos, *repo, *verif))
+	case "benign":
+		os.Exit(runBenignCmd(pos, *repo, *verif))
 	default:
 		usage()
 	}
@@ -228,7 +230,7 @@ func runCheck(pid, tier, repo, verif string, writeFiles, jsonOut bool) int {
 
 	configs := []map[string]any{{"config": "default", "packages": len(c.Pkgs), "functions": len(c.Funcs), "obligations": len(out.obs), "failing": len(out.failing)}}
 	var extra []string
-	var matrix, seedMatrix any
+	var matrix, seedMatrix, benignMatrix any
 	if tier == "thorough" {
 		extraFail, cfgs, notes := thoroughConfigs(pid, repo, rules, kf)
 		configs = append(configs, cfgs...)
@@ -237,6 +239,7 @@ func runCheck(pid, tier, repo, verif string, writeFiles, jsonOut bool) int {
 		if writeFiles {
 			matrix = runMutantMatrix(pid, repo, verif)
 			seedMatrix = runSeedMatrix(pid, repo, verif)
+			benignMatrix = runBenignMatrix(pid, repo, verif)
 		}
 	}
 
@@ -321,6 +324,9 @@ func runCheck(pid, tier, repo, verif string, writeFiles, jsonOut bool) int {
 		}
 		if seedMatrix != nil {
 			cov["seed_matrix"] = seedMatrix
+		}
+		if benignMatrix != nil {
+			cov["benign_matrix"] = benignMatrix
 		}
 		ev := Evidence{
 			PropertyID: pid, Tier: tier, Seed: seed, Level: "other",
